@@ -304,7 +304,7 @@ fn spending(cfg: &Cfg, rep: &mut Report, h: u64, steps: usize, to_bound: bool) {
         if k < 8 {
             // (re)install
             let l = *rng.pick(&[0i128, -1, 1, 100, 1000, 1_000_000, i128::MAX]);
-            let p = if to_bound { 5000 } else { *rng.pick(&[0u32, 1, 2, 5, 10, 100]) };
+            let p = if to_bound { 5000 } else { *rng.pick(&[0u32, 1, 2, 5, 10, 100, 100, u32::MAX, u32::MAX - 4]) };
             let params = SpendingLimitAccountParams { spending_limit: l, period_ledgers: p };
             let a = args!(e, params, r.clone(), account.clone());
             let unsigned = call(&w, &policy, &account, "install", a.clone(), false);
@@ -358,7 +358,7 @@ fn spending(cfg: &Cfg, rep: &mut Report, h: u64, steps: usize, to_bound: bool) {
                 }
             }
         } else if k < 34 && !to_bound {
-            let adv = if rng.chance(1, 20) { 600_000 } else { *rng.pick(&[1u32, 1, 2, period.max(1) - 1, period.max(1), period + 1, 3]) };
+            let adv = if rng.chance(1, 20) { 600_000 } else { (*rng.pick(&[1u32, 1, 2, period.max(1) - 1, period.max(1), period.saturating_add(1), 3])).min(2_000_000) };
             if adv > 0 {
                 w.set_ledger(cur + adv);
                 rep.op(format!("ledger -> {}", cur + adv));
